@@ -601,7 +601,9 @@ func (w *c09World) value(hdr string) string {
 	if len(pairs) == 1 {
 		return strings.TrimPrefix(pairs[0], w.name+"=")
 	}
-	sort.Slice(pairs, func(a, b int) bool { return len(pairs[a]) < len(pairs[b]) || (len(pairs[a]) == len(pairs[b]) && pairs[a] < pairs[b]) })
+	sort.Slice(pairs, func(a, b int) bool {
+		return len(pairs[a]) < len(pairs[b]) || (len(pairs[a]) == len(pairs[b]) && pairs[a] < pairs[b])
+	})
 	var b strings.Builder
 	for _, p := range pairs {
 		if i := strings.Index(p, "="); i >= 0 {
@@ -1013,7 +1015,7 @@ func init() {
 	register(&checkDef{
 		id:    "C09",
 		level: "model_checking",
-		rule: "breadth-first search over all operation histories (request from the jar, clock advances from the threshold-derived set incl. half-second and one setback, presenting the oldest / newest credential ever received by hand) up to the depth bound after a login, for every (cookie-expire, cookie-refresh) x store x provider-refresh-support x token-lifetime configuration; each history is replayed on a fresh world through the real handlers, states are de-duplicated on decrypted session contents, jar, store entries with TTL, provider state and clock offset; the lifetime model (reject at age >= expire or stamp >= 5min+1s in the future, serve the browser's own credential at age <= expire-1s, Max-Age and store TTL = expire at every issue) is evaluated on the last transition of every execution; non-trivial = a transition in which a credential was presented and the model demands a definite answer (must-serve / must-reject), distinct by configuration, operation, credential age and session age",
+		rule:  "breadth-first search over all operation histories (request from the jar, clock advances from the threshold-derived set incl. half-second and one setback, presenting the oldest / newest credential ever received by hand) up to the depth bound after a login, for every (cookie-expire, cookie-refresh) x store x provider-refresh-support x token-lifetime configuration; each history is replayed on a fresh world through the real handlers, states are de-duplicated on decrypted session contents, jar, store entries with TTL, provider state and clock offset; the lifetime model (reject at age >= expire or stamp >= 5min+1s in the future, serve the browser's own credential at age <= expire-1s, Max-Age and store TTL = expire at every issue) is evaluated on the last transition of every execution; non-trivial = a transition in which a credential was presented and the model demands a definite answer (must-serve / must-reject), distinct by configuration, operation, credential age and session age",
 		assumptions: []string{
 			"issue time of a credential = virtual time of the login or of the provider-granted refresh whose response set it; a session cookie re-issued without such an event inherits the issue time of the credential presented",
 			"the one-second bands [expire-1s, expire) and (5min-1s, 5min+1s) are ambiguous (sub-second truncation of the stamp) and cannot fail",
@@ -1024,8 +1026,13 @@ func init() {
 			"miniredis models Redis key expiry (FastForward in lock-step with the virtual clock)",
 		},
 		shards: func(tier string) int { return 16 },
-		run:    c09Main,
+		run:    func(c *Ctx) { concRunFor(c, "C09"); c09Main(c) },
 		post:   c09Post,
-		replay: c09Replay,
+		replay: func(c *Ctx, raw json.RawMessage) string {
+			if out, ok := concReplayFor(c, "C09", raw); ok {
+				return out
+			}
+			return c09Replay(c, raw)
+		},
 	})
 }
